@@ -2,6 +2,7 @@ SPECIFICATION Spec
 CONSTANTS
   L = 3
   MaxReq = 8
+  FreeAtReleasedPage = FALSE
   ParentBitOnlyOnExactFit = FALSE
 INVARIANTS NoDoubleHandOut NoLeak WellFormed Merged NeverFailsWithFreeBlock
 CHECK_DEADLOCK FALSE
